@@ -3,7 +3,7 @@ from checks import rapid, plain, fuzz, REPLAY
 CHECK = dict(
         pkg="c17", level="exploration",
         rule="1-3 queues (limit 1-3, default or reqmeta.DataNext priority), 2-5 workers each running a generated program of 1-10 ops over "
-             "{Acquire, TryAcquire, AcquireMulti(subset, with nil/duplicate entries), nested Acquire/TryAcquire with the AcquireMulti context, "
+             "element type reqmeta.Data (2/3) or struct{} as regsync/regbot use it (1/3, default priority only); {Acquire, TryAcquire, AcquireMulti(subset, with nil/duplicate entries), nested Acquire/TryAcquire with the AcquireMulti context, "
              "release, repeated release, cancel the context of any worker}; engine 1 executes it under a generated schedule with exactly one "
              "goroutine running between pqueue's hook points (0-200 generated choices, then run-until-blocked), engine 2 on free goroutines "
              "(GOMAXPROCS 1/2/4/16, 10 executions per case). Non-trivial (engine 1) = the execution contained a cancellation racing with a "
